@@ -125,7 +125,7 @@ struct Lat {
     pole = lat == 90 ? 1 : (lat == -90 ? -1 : 0);
     sincosd(lat, s, c);
     phi = Q(lat) * deg();
-    t = pole ? Q(pole) * Q(1e4000Q) : s / c;
+    t = pole ? Q(pole) * HUGE_VALQ : s / c;
   }
   Lat(Q phi_, int) : phi(phi_) { s = sinq(phi); c = cosq(phi); pole = 0; t = s / c; }   // from radians (never exactly a pole)
 };
@@ -134,7 +134,6 @@ struct Lat {
 struct Seg { Q dpsi, dm, dmdpsi, meanA; };
 inline Seg segment(const Ell& E, const Lat& p1, const Lat& p2) {
   Seg g;
-  Q t1 = asinhq(p1.t), t2 = asinhq(p2.t);
   g.dm = E.merid(p1.phi, p2.phi);
   Q dphi = p2.phi - p1.phi;
   if (fabsq(dphi) < Q(1e-16)) {
@@ -145,12 +144,22 @@ inline Seg segment(const Ell& E, const Lat& p1, const Lat& p2) {
     g.meanA = E.zoneA(sm);
     return g;
   }
-  const Q e2 = E.e2;
-  auto gfun = [e2](Q t) { Q th = tanhq(t); return (1 - e2) / (1 - e2 * th * th); };
-  auto afun = [&E, e2](Q t) { Q th = tanhq(t); return E.zoneA(th) * (1 - e2) / (1 - e2 * th * th); };
-  // panels: |e2| large and prolate brings the singularity t = i atan(1/|e|) closer; width 1/2 is ample for |f| <= 0.5
-  Q ig = integrate(gfun, t1, t2, Q(0.5)), ia = integrate(afun, t1, t2, Q(0.5));
-  g.dpsi = ig;                        // == psi(phi2) - psi(phi1), formed without cancellation
+  // t = asinh(tan phi); dpsi = w(t) dt with w = (1-e^2)/(1-e^2 tanh^2 t).  The integrands are analytic in the strip
+  // |Im t| < atan(1/|e|) (prolate) or pi/2 (oblate) >= 0.73 for |f| <= 0.5: panels of width 1 with 40 nodes converge to
+  // better than 1e-38.  Both integrals are formed over the interval itself (no cancellation for nearby points).
+  Q t1 = asinhq(p1.t), t2 = asinhq(p2.t), len = t2 - t1;
+  int np = (int)ceilq(fabsq(len)); if (np < 1) np = 1;
+  const GL& gq = gl(); const Q e2 = E.e2;
+  Q ig = 0, ia = 0, h = len / np;
+  for (int p = 0; p < np; ++p) {
+    Q c = t1 + h * (p + Q(0.5)), sg = 0, sa = 0;
+    for (int i = 0; i < GL::N; ++i) {
+      Q th = tanhq(c + gq.x[i] * h / 2), w = gq.w[i] * (1 - e2) / (1 - e2 * th * th);
+      sg += w; sa += w * E.zoneA(th);
+    }
+    ig += sg * h / 2; ia += sa * h / 2;
+  }
+  g.dpsi = ig;                        // == psi(phi2) - psi(phi1)
   g.dmdpsi = g.dm / g.dpsi;
   g.meanA = ia / ig;
   return g;
@@ -158,72 +167,81 @@ inline Seg segment(const Ell& E, const Lat& p1, const Lat& p2) {
 
 // exact longitude difference lon2 - lon1 reduced to [-180, 180]; tie = the two points are on opposite meridians
 inline Q lon_diff(double lon1, double lon2, bool& tie) {
-  Q d = Q(lon2) - Q(lon1);              // exact in Q for |lon| < 2^60 ulp range used here
+  Q d = Q(lon2) - Q(lon1);              // exact in Q for the magnitudes used here
   d = remainderq(d, Q(360));
   tie = fabsq(d) == 180;
   if (tie) d = 180;                     // documented: the east-going course is chosen
   return d;
 }
 
-struct Inv {
-  Q s12, azi12, S12, lon12;     // metres, degrees, m^2, degrees
-  bool tie;                     // opposite meridians (east-going chosen)
-  bool azi_indet, area_indet;   // pole-to-same-pole / pole-to-opposite-pole
-  Q R2;                         // parallel radius at point 2 (metres), for error scaling
+// ---- inverse problem.  InvCore depends on the two latitudes only (shared by all longitudes).
+struct InvCore {
+  int kind;                 // 0 generic, 1 same latitude (east-west), 2 one pole, 3 same pole twice, 4 opposite poles
+  Q dpsi, dmdpsi, meanA;    // kind 0;  kind 1: dmdpsi = parallel radius, meanA = A(phi);  kind 2,3: meanA = A(pole)
+  Q dm;                     // signed meridian distance
+  Q R2;                     // parallel radius at point 2
 };
-
-inline Inv inverse(const Ell& E, double lat1, double lon1, double lat2, double lon2) {
-  Inv r; r.azi_indet = r.area_indet = false;
-  Lat p1(lat1), p2(lat2);
-  r.lon12 = lon_diff(lon1, lon2, r.tie);
-  Q lam = r.lon12 * deg();
-  r.R2 = E.R(p2.s, p2.c);
+inline InvCore inv_core(const Ell& E, const Lat& p1, const Lat& p2) {
+  InvCore c; c.dpsi = 0; c.dmdpsi = 0; c.meanA = 0;
+  c.R2 = E.R(p2.s, p2.c);
+  c.dm = E.merid(p1.phi, p2.phi);
   if (p1.pole || p2.pole) {
+    if (p1.pole && p2.pole) { c.kind = p1.pole == p2.pole ? 3 : 4; c.meanA = E.zoneA(Q(p1.pole)); }
+    else { c.kind = 2; c.meanA = E.zoneA(Q(p1.pole ? p1.pole : p2.pole)); }
+    return c;
+  }
+  if (p1.phi == p2.phi) { c.kind = 1; c.dmdpsi = E.R(p1.s, p1.c); c.meanA = E.zoneA(p1.s); return c; }
+  Seg g = segment(E, p1, p2);
+  c.kind = 0; c.dpsi = g.dpsi; c.dmdpsi = g.dmdpsi; c.meanA = g.meanA;
+  return c;
+}
+struct Inv {
+  Q s12, azi12, S12;            // metres, degrees, m^2
+  bool azi_indet, area_indet;   // pole-to-same-pole / pole-to-opposite-pole
+};
+// lam = longitude difference in radians (already reduced to the short way)
+inline Inv inv_eval(const InvCore& c, Q lam) {
+  Inv r; r.azi_indet = r.area_indet = false;
+  switch (c.kind) {
+  case 0:
+    r.s12 = hypotq(lam, c.dpsi) * c.dmdpsi; r.azi12 = atan2q(lam, c.dpsi) / deg(); r.S12 = lam * c.meanA; break;
+  case 1:
+    r.s12 = fabsq(lam) * c.dmdpsi; r.azi12 = lam == 0 ? Q(0) : (lam > 0 ? Q(90) : Q(-90)); r.S12 = lam * c.meanA; break;
+  case 2:
     // a course into a pole: psi -> +-infinity, the azimuth tends to the meridian, the length to the meridian arc and
     // (lambda being linear in psi) the mean of A over psi to A(pole)
-    r.s12 = fabsq(E.merid(p1.phi, p2.phi));
-    if (p1.pole && p2.pole) {
-      if (p1.pole == p2.pole) { r.azi_indet = true; r.azi12 = 0; r.S12 = lam * E.zoneA(Q(p1.pole)); }
-      else { r.azi12 = p2.pole > 0 ? 0 : 180; r.area_indet = true; r.S12 = 0; }
-    } else {
-      int up = p2.pole ? p2.pole : -p1.pole;      // direction of increasing psi
-      r.azi12 = up > 0 ? 0 : 180;
-      r.S12 = lam * E.zoneA(Q(p1.pole ? p1.pole : p2.pole));
-    }
-    return r;
+    r.s12 = fabsq(c.dm); r.azi12 = c.dm > 0 ? 0 : 180; r.S12 = lam * c.meanA; break;
+  case 3:
+    r.s12 = 0; r.azi12 = 0; r.azi_indet = true; r.S12 = lam * c.meanA; break;
+  default:
+    r.s12 = fabsq(c.dm); r.azi12 = c.dm > 0 ? 0 : 180; r.area_indet = true; r.S12 = 0; break;
   }
-  if (lat1 == lat2) {
-    r.s12 = fabsq(lam) * E.R(p1.s, p1.c);
-    r.azi12 = lam == 0 ? Q(0) : (lam > 0 ? Q(90) : Q(-90));
-    r.S12 = lam * E.zoneA(p1.s);
-    return r;
-  }
-  Seg g = segment(E, p1, p2);
-  r.s12 = hypotq(lam, g.dpsi) * g.dmdpsi;
-  r.azi12 = atan2q(lam, g.dpsi) / deg();
-  r.S12 = lam * g.meanA;
   return r;
 }
+inline Inv inverse(const Ell& E, double lat1, double lon1, double lat2, double lon2) {
+  bool tie; Q lon12 = lon_diff(lon1, lon2, tie);
+  return inv_eval(inv_core(E, Lat(lat1), Lat(lat2)), lon12 * deg());
+}
 
+// ---- direct problem
 struct Dir {
   Q lat2, dlon, S12;            // degrees, degrees (unrolled lon2 - lon1), m^2
   bool pastpole;                // the course crosses a pole: lon2 and S12 indeterminate
-  Q margin;                     // metres of meridian distance between the end point and the nearer pole crossing (>= 0)
+  Q margin;                     // metres of meridian distance between the end point and the nearest pole crossing (>= 0)
   bool polestart;
   Q R2, M2;                     // parallel radius and meridional curvature radius at point 2
 };
 
-inline Dir direct(const Ell& E, double lat1, double azi12, double s12) {
-  Dir r; r.pastpole = false;
-  Lat p1(lat1); r.polestart = p1.pole != 0;
-  Q sa, ca; sincosd(azi12, sa, ca);
+// azimuth given by its sine and cosine, distance in Q (the self-test closes the inverse/direct loop without rounding)
+inline Dir direct_sc(const Ell& E, const Lat& p1, Q sa, Q ca, Q s12) {
+  Dir r; r.pastpole = false; r.polestart = p1.pole != 0;
   Q Qm = E.quarter();
-  Q m1 = E.merid(0, p1.phi), dm = Q(s12) * ca, m2 = m1 + dm;
+  Q m1 = E.merid(0, p1.phi), dm = s12 * ca, m2 = m1 + dm;
   r.margin = fabsq(Qm - fabsq(m2));
   Q phi2;
   if (fabsq(m2) > Qm) {
     r.pastpole = true;
-    // continue along the meridian over the pole(s): position on the meridian ellipse as an angle-like coordinate
+    // continue along the meridian ellipse over the pole(s)
     Q u = remainderq(m2, 4 * Qm);                  // [-2Q, 2Q]
     if (u > Qm) u = 2 * Qm - u; else if (u < -Qm) u = -2 * Qm - u;
     r.margin = fminq(r.margin, fabsq(Qm - fabsq(u)));
@@ -239,8 +257,8 @@ inline Dir direct(const Ell& E, double lat1, double azi12, double s12) {
     return r;
   }
   if (dm == 0) {                                   // s12 = 0 or exactly east-west
-    r.lat2 = lat1; r.R2 = E.R(p1.s, p1.c); r.M2 = E.M(p1.s);
-    Q lam = Q(s12) * sa / r.R2;
+    r.lat2 = p1.phi / deg(); r.R2 = E.R(p1.s, p1.c); r.M2 = E.M(p1.s);
+    Q lam = s12 * sa / r.R2;
     r.dlon = lam / deg(); r.S12 = lam * E.zoneA(p1.s);
     return r;
   }
@@ -252,10 +270,17 @@ inline Dir direct(const Ell& E, double lat1, double azi12, double s12) {
     r.dlon = 0; r.S12 = 0; r.margin = 0; return r;
   }
   Seg g = segment(E, p1, p2);
-  Q lam = Q(s12) * sa / g.dmdpsi;                  // == tan(alpha) * dpsi
+  Q lam = s12 * sa / g.dmdpsi;                     // == tan(alpha) * dpsi
   r.dlon = lam / deg();
   r.S12 = lam * g.meanA;
   return r;
 }
+inline Dir direct(const Ell& E, double lat1, double azi12, double s12) {
+  Q sa, ca; sincosd(azi12, sa, ca);
+  return direct_sc(E, Lat(lat1), sa, ca, Q(s12));
+}
+
+// the latitude moved towards the equator by d radians (used to measure the conditioning of a case)
+inline Lat toward_equator(const Lat& p, Q d) { return Lat(p.phi > 0 ? p.phi - d : p.phi + d, 0); }
 
 }  // namespace rhq
